@@ -311,6 +311,136 @@ def _sort_and_inverse(ctx):
         ctx.ob("R28.7", f"_invert_property[{tier} components]", ok, "entry-wise reciprocal on the isotropic / diagonal tiers; on the full tier the row-major 3x3 matrix inverse of a general (non-symmetric) tensor: M inv(M) = 1", detail or getattr(inv, "shape", inv), "M inv = 1")
 
 
+def _mock_mats(ix, eps, se=None, sm=None, mu=None):
+    """name -> Material mock with concrete diagonal tensors (the fields the ordering and the tables read)."""
+    M = ix.cls("fdtdx.materials.Material")
+
+    def diag(v):
+        return tuple(float(v) if i in (0, 4, 8) else 0.0 for i in range(9))
+
+    return {nm: Obj(M, dict(permittivity=diag(eps[nm]), permeability=diag((mu or {}).get(nm, 1)), electric_conductivity=diag((se or {}).get(nm, 0)), magnetic_conductivity=diag((sm or {}).get(nm, 0)), dispersion=None), nm) for nm in eps}
+
+
+def _material_mapping(ctx):
+    """get_material_mapping of every single-material shape: every voxel carries the index of material_name in the
+    common (property-sorted) material order the allowed-value tables use — not in the dictionary's own order."""
+    import itertools
+
+    ix = ctx.index
+    S = ix.cls("fdtdx.objects.static_material.static.StaticMultiMaterialObject")
+    classes = [c for c in ix.subclasses(S) if "get_material_mapping" in c.methods and c.lookup_field("material_name") is not None]
+    ctx.require_count("R28.8 shapes with their own get_material_mapping", len(classes), 3)
+    eps = {"abs": 2.0, "air": 1.0, "metal": 5.0}
+    order = sorted(eps, key=eps.get)
+    for ci in sorted(classes, key=lambda c: c.qualname):
+        ctx.unit(ci.methods["get_material_mapping"].where())
+        bad = []
+        n = 0
+        for names in itertools.permutations(eps):
+            for chosen in names:
+                it = ctx.fresh_interp()
+                shp = lambda a, k: tuple(int(x) for x in (a[0] if a else k.get("shape")))
+                it.ext_overrides["np.ones"] = lambda it_, a, k: NdArr(shp(a, k), [1] * math.prod(shp(a, k)))
+                it.ext_overrides["np.full"] = lambda it_, a, k: NdArr(shp(a, k), [a[1] if len(a) > 1 else k.get("fill_value")] * math.prod(shp(a, k)))
+                o = Obj(ci, dict(materials={nm: _mock_mats(ix, eps)[nm] for nm in names}, material_name=chosen, grid_shape=(2, 1, 2), name="shape"), "shape")
+                try:
+                    got = it.call_method(o, "get_material_mapping")
+                except Raised as r:
+                    raise AnalysisError(f"{ci.qualname}.get_material_mapping raises: {r}")
+                n += 1
+                want = order.index(chosen)
+                ok = isinstance(got, NdArr) and got.shape == (2, 1, 2) and all(to_rat(v).equals(want) for v in got.data)
+                if not ok:
+                    bad.append((names, chosen, [to_rat(v).fmt() for v in got.data][:2] if isinstance(got, NdArr) else got, want))
+        ctx.ob("R28.8", f"{ci.qualname}.get_material_mapping", not bad, f"every voxel of the object's grid shape holds the position of material_name in the property-sorted material order, for every insertion order of the dictionary ({n} scopes)", bad[:3], "sorted-order index")
+
+
+_KINDS = ("permittivities", "permeabilities", "electric_conductivities", "magnetic_conductivities")
+
+
+def _multi_material_branch(ctx):
+    """The StaticMultiMaterialObject branch of the placement loop, interpreted on a two-cell object: each of the four
+    arrays is moved, by the mask fraction, towards the value of the voxel's own material taken from the table of that
+    array's own kind (inverse for eps / mu, grid-scaled for the conductivities); cells outside the object keep theirs."""
+    ix = ctx.index
+    f = ix.function(f"{INIT}._init_arrays")
+    ctx.unit(f.where())
+    branches = [n for n in ast.walk(f.node) if isinstance(n, ast.If) and "StaticMultiMaterialObject" in ast.unparse(n.test) and "isinstance" in ast.unparse(n.test)]
+    if len(branches) != 1:
+        raise AnalysisError(f"cannot locate the StaticMultiMaterialObject branch of _init_arrays ({len(branches)} candidates)")
+    body = branches[0].body
+    mi = ix.modules[INIT]
+    names = ("m0", "m1", "m2")
+    tab = {k: {nm: Rat.atom((k, nm)) for nm in names} for k in _KINDS}
+
+    def table(kind):
+        def h(it_, a, k):
+            # three rows in the common order m0, m1, m2; one (isotropic) column
+            return [(tab[kind][nm],) for nm in names]
+        return h
+
+    def sps(mode):
+        def h(it_, a, k):
+            arr, idx, val = a[0], a[1], a[2]
+            return it_.call(it_.getattr(it_.getitem(it_.getattr(arr, "at"), idx), mode), [val], {})
+        return h
+
+    bad = []
+    n = 0
+    for magnetic, se_on, sm_on in ((True, True, True), (False, True, False), (True, False, True), (False, False, False)):
+        it = ctx.fresh_interp()
+        stubs = {f"compute_allowed_{k}": table(k) for k in _KINDS}
+        stubs.update({"sharding_preserving_set": sps("set"), "sharding_preserving_add": sps("add"), "_invert_property": lambda it_, a, k: a[0].map(lambda v: 1 / to_rat(v)) if isinstance(a[0], NdArr) else 1 / to_rat(a[0])})
+        stub_repo_calls(it, stubs)
+        shape = (3, 1, 1)  # the volume; the object covers cells 1..2 along x
+        gsl = (slice(1, 3), slice(0, 1), slice(0, 1))
+        mk = lambda nm: NdArr((1,) + shape, [Rat.atom((nm, i)) for i in range(3)])
+        idx = NdArr((2, 1, 1), [2, 0])
+        mask = NdArr((2, 1, 1), [Rat.atom("f0"), Rat.atom("f1")])
+        o = Obj(None, dict(name="ball", materials={"m2": "M2", "m0": "M0", "m1": "M1"}, grid_slice=gsl, subpixel_smoothing=False, get_material_mapping=Builtin("get_material_mapping", lambda it_, a, k: idx), get_voxel_mask_for_shape=Builtin("get_voxel_mask_for_shape", lambda it_, a, k: mask)), "ball")
+        vars_ = dict(
+            o=o, subpixel_permittivity=False, subpixel_full_tensor=False,
+            inv_permittivities=mk("ie"), inv_permeabilities=mk("im") if magnetic else 1.0,
+            electric_conductivity=mk("se") if se_on else None, magnetic_conductivity=mk("sm") if sm_on else None,
+            conductivity_spacing=Rat.atom("h"), num_dispersive_poles=0,
+        )
+        for k in ("permittivity", "permeability", "electric_conductivity", "magnetic_conductivity"):
+            vars_[f"isotropic_{k}"] = True
+            vars_[f"diagonally_anisotropic_{k}"] = True
+        env = absint.Env(parent=it.module_env(mi), vars=dict(vars_))
+        try:
+            it.exec_block(body, env)
+        except Raised as r:
+            raise AnalysisError(f"the multi-material branch raises on the two-cell object: {r}")
+        specs = [("inv_permittivities", "ie", "permittivities", True, True), ("inv_permeabilities", "im", "permeabilities", True, magnetic), ("electric_conductivity", "se", "electric_conductivities", False, se_on), ("magnetic_conductivity", "sm", "magnetic_conductivities", False, sm_on)]
+        for var, tag, kind, inv, on in specs:
+            got = env.lookup(var)[1]
+            n += 1
+            if not on:
+                if isinstance(got, NdArr):
+                    bad.append((var, "allocated by the branch", got.shape))
+                continue
+            if not (isinstance(got, NdArr) and got.shape == (1,) + shape):
+                bad.append((var, "shape", getattr(got, "shape", got)))
+                continue
+            for cell in range(3):
+                old = Rat.atom((tag, cell))
+                if cell == 0:
+                    want = old
+                else:
+                    frac = Rat.atom(f"f{cell - 1}")
+                    own = tab[kind][names[(2, 0)[cell - 1]]]
+                    if inv:
+                        want = 1 / (1 / old + frac * (own - 1 / old))
+                    else:
+                        want = old + frac * (own * Rat.atom("h") - old)
+                g = to_rat(got.data[cell])
+                if not g.equals(want):
+                    bad.append(((magnetic, se_on, sm_on), var, f"cell {cell}", g.fmt()[:160], want.fmt()[:160]))
+    ctx.ob("R28.9", "_init_arrays:multi-material-branch", not bad, f"inside a shaped object's slice each array moves by the voxel's mask fraction towards the value of the voxel's own material (index into the common order) from the allowed-value table of that array's own kind — 1/eps, 1/mu, sigma_e*h, sigma_m*h — and the cell outside the slice is untouched ({n} array scopes over magnetic / lossy combinations)", bad[:3], "own-kind table, own material")
+    ctx.require_count("R28.9 array scopes", n, 16)
+
+
 def _job(ctx, payload):
     _scene_job(ctx, payload)
 
@@ -322,6 +452,8 @@ def run(ctx):
     err = run_jobs(ctx, "sa.checks.c28", "_job", scenes, [s[0] for s in scenes])
     _predicate_names(ctx)
     _sort_and_inverse(ctx)
+    _material_mapping(ctx)
+    _multi_material_branch(ctx)
     if err is not None:
         raise AnalysisError(err)
     ctx.require_count("C28", len(ctx.obligations), 50)
